@@ -15,7 +15,7 @@ PROP = "C03"
 SHARDS = {"quick": 8, "thorough": 16}
 TIME_CAP = {"quick": 70, "thorough": 900}
 RECURSION_LIMIT = 3000
-REQUIRED = ["probe_type_calls", "returned", "rejected", "programs", "hostile_calls", "coerce_calls", "no_copy_calls", "purity_checks", "class_fp_checks", "step_counted_calls", "deep_calls", "digraph_calls"]
+REQUIRED = ["discriminated_purity_checks", "probe_type_calls", "returned", "rejected", "programs", "hostile_calls", "coerce_calls", "no_copy_calls", "purity_checks", "class_fp_checks", "step_counted_calls", "deep_calls", "digraph_calls"]
 RULE = ("C01 program space x {type-relevant atoms, hostile non-JSON objects (NaN/inf, 10**400, str/int/float/list/dict subclasses, tuples, bytes, sets, "
         "non-string / mixed / unhashable keys and values, lone surrogates) substituted at every position of model-valid data, random non-JSON trees, "
         "nesting up to depth 2000 on recursive types} x coerce x additional_properties x fall_back_on_default x no_copy. "
@@ -364,6 +364,8 @@ def check_digraph(env, j):
 
 
 def run(env):
+    from vf import disc
+    disc.run_family(env, disc.check_purity, env.n(64, 2000))  # discriminated-union families first (their own budget)
     harness.tag_errors(False)
     rng = env.rng
     steps = Steps()
